@@ -97,6 +97,14 @@ type dialResult struct {
 	done chan struct{}
 	conn *wsConnection
 	err  error
+
+	// aborted reports that the dial failed while the dialing subscriber's own
+	// context was already done. Such a failure says nothing about the upstream,
+	// so waiters whose context is still alive must dial again instead of
+	// inheriting err. The error value itself cannot be used for this: depending
+	// on where the cancellation lands it is context.Canceled, a wrapped
+	// net.ErrClosed, or protocol.ErrAckTimeout (dialer deadline).
+	aborted bool
 }
 
 // NewWSTransport creates a new WSTransport. Connections are not closed when ctx
@@ -208,6 +216,12 @@ func (t *WSTransport) getOrDial(ctx context.Context, opts common.Options) (*wsCo
 		}
 
 		if result.err != nil {
+			if result.aborted && ctx.Err() == nil {
+				// The subscriber that dialed went away mid-dial. Its entry has
+				// already been removed from t.dialing, so this call either
+				// becomes the new dialer or waits on another retrying waiter.
+				return t.getOrDial(ctx, opts)
+			}
 			return nil, result.err
 		}
 
@@ -220,10 +234,8 @@ func (t *WSTransport) getOrDial(ctx context.Context, opts common.Options) (*wsCo
 
 	conn, err := t.dial(ctx, key, opts)
 
-	result.conn = conn
-	result.err = err
-	close(result.done)
-
+	// Publish to the maps before waking the waiters, so that a waiter that
+	// retries never finds this finished entry in t.dialing again.
 	t.mu.Lock()
 	delete(t.dialing, key)
 
@@ -231,6 +243,11 @@ func (t *WSTransport) getOrDial(ctx context.Context, opts common.Options) (*wsCo
 		t.conns[key] = conn
 	}
 	t.mu.Unlock()
+
+	result.conn = conn
+	result.err = err
+	result.aborted = err != nil && ctx.Err() != nil
+	close(result.done)
 
 	return conn, err
 }
